@@ -20,6 +20,8 @@ type mountWorld struct {
 	points []string       // in insertion order
 	parts  []hackpadfs.FS // parts[0] = root, parts[i+1] = FS mounted at points[i]
 	flat   hackpadfs.FS   // the same tree in one plain in-memory FS
+
+	setupErr string // building the mount table itself failed (a violation: every step of it is valid)
 }
 
 func isAncestorOrEqual(a, p string) bool { return a == p || a == "." || strings.HasPrefix(p, a+"/") }
@@ -46,12 +48,14 @@ func buildMountWorld(r *Rng) *mountWorld {
 	w := &mountWorld{m: m, parts: []hackpadfs.FS{root}, flat: newMem()}
 	for _, p := range pts {
 		if err := hackpadfs.MkdirAll(m, p, 0o755); err != nil {
-			panic(err)
+			w.setupErr = fmt.Sprintf("MkdirAll(%q) through the mount FS with mount points %v: %v", p, w.points, err)
+			return w
 		}
 		_ = hackpadfs.MkdirAll(w.flat, p, 0o755)
 		inner := newMem()
 		if err := m.AddMount(p, inner); err != nil {
-			panic(fmt.Sprint("AddMount ", p, ": ", err))
+			w.setupErr = fmt.Sprintf("AddMount(%q) on an existing directory with mount points %v: %v", p, w.points, err)
+			return w
 		}
 		w.points = append(w.points, p)
 		w.parts = append(w.parts, inner)
@@ -165,6 +169,12 @@ func runC06(r *Rng, n int, replay string) {
 	for id := 0; id < n; id++ {
 		w := buildMountWorld(r)
 		c := &Case{ID: id}
+		if w.setupErr != "" {
+			c.Text = append(c.Text, w.setupErr)
+			c.fail(w.setupErr, "setup:failed")
+			emit(c)
+			continue
+		}
 		c.Text = append(c.Text, fmt.Sprintf("mount points (insertion order) %v", w.points))
 		cells := map[string]bool{fmt.Sprintf("mounts%d", len(w.points)): true}
 		mw := &World{FS: w.m}
